@@ -29,6 +29,7 @@ type Scenario struct {
 	// Isolate: the scenario touches process-global state that a violating
 	// execution can corrupt for good; the worker stops at its first violation.
 	Isolate                 bool
+	Horizon                 int // max scheduling points per execution (0 = default)
 	FreeQuick, FreeThor     int // free-choice bound per tier (0 = default 3; use -1 for "0")
 	// New returns the body and the oracle for one execution.
 	Make func() (body func(), check func(e *vsched.Exec) (string, *vsched.Violation))
@@ -61,6 +62,10 @@ type Result struct {
 	Races       []string            `json:"races,omitempty"`
 	Longest     []int               `json:"longest_prefix,omitempty"`
 }
+
+var tierFlag = flag.String("tier", "quick", "tier (scenarios that enumerate inside one execution use it for their depth)")
+
+func tierThorough() bool { return *tierFlag == "thorough" }
 
 func main() {
 	list := flag.Bool("list", false, "list scenarios as JSON")
@@ -138,7 +143,7 @@ func main() {
 				pre = append(pre, x)
 			}
 		}
-		e := vsched.Run(pre, &vsched.Config{PointAtRelease: *release}, wrapBody)
+		e := vsched.Run(pre, &vsched.Config{PointAtRelease: *release, Horizon: sc.Horizon}, wrapBody)
 		obs, v := wrapCheck(e)
 		for _, l := range e.TraceStrings(0) {
 			fmt.Println(l)
@@ -160,6 +165,7 @@ func main() {
 	x := &vsched.Explorer{Name: sc.Name, Bound: *bound, FreeBound: *fbound, Body: wrapBody, Check: wrapCheck,
 		Shard: *shard, NShards: *nshards, MaxExecs: *maxExecs}
 	x.Cfg.PointAtRelease = *release
+	x.Cfg.Horizon = sc.Horizon
 	if sc.Isolate {
 		x.MaxViol = 1
 	}
